@@ -110,20 +110,21 @@ RenderDt == /\ Tick /\ dts # {} /\ \E dt \in dts :
               /\ UNCHANGED <<zone, buf, reads, dts>>
 
 \* ---- rules and descriptions (C09, C11): a rule, once accepted, governs a rule-only zone ----
-RuleZoneOf(rule) == MkZone([tr |-> <<>>, ty |-> IF rule.k = "fixed" THEN <<rule.t>> ELSE <<rule.std, rule.dst>>, lp |-> <<>>, rule |-> rule])
+ZoneArgOf(rule) == [tr |-> <<>>, ty |-> IF rule.k = "fixed" THEN <<rule.t>> ELSE <<rule.std, rule.dst>>, lp |-> <<>>, rule |-> rule]   \* wire shape
+RuleZoneOf(rule) == MkZone(ZoneArgOf(rule))
 MakeRule == /\ Tick /\ \E ra \in Rules :
               LET rule == [k |-> "alt", std |-> ra.std, dst |-> ra.dst, sd |-> ra.sd, st |-> ra.st, ed |-> ra.ed, et |-> ra.et]
                   v == RuleVerdict(rule) IN
               /\ zone' = IF v.ok # {} THEN RuleZoneOf(rule) ELSE zone
               /\ buf' = IF v.ok # {} THEN EmptyBuf ELSE buf
-              /\ last' = [op |-> "rule", a |-> ra, accepted |-> v.ok # {}, errs |-> v.err]
+              /\ last' = [op |-> "rule", a |-> ra, accepted |-> v.ok # {}, errs |-> v.err, za |-> IF v.ok # {} THEN ZoneArgOf(rule) ELSE [k |-> "none"]]
               /\ UNCHANGED <<reads, dts>>
 ParseDescription ==
   /\ Tick /\ \E str \in TzStrings, ext \in BOOLEAN :
               LET p == ParseTz(TrimWs(str), ext) IN
               /\ zone' = IF p.ok THEN RuleZoneOf(p.rule) ELSE zone
               /\ buf' = IF p.ok THEN EmptyBuf ELSE buf
-              /\ last' = [op |-> "tzstring", a |-> str, ext |-> ext, accepted |-> p.ok]
+              /\ last' = [op |-> "tzstring", a |-> str, ext |-> ext, accepted |-> p.ok, za |-> IF p.ok THEN ZoneArgOf(p.rule) ELSE [k |-> "none"]]
               /\ UNCHANGED <<reads, dts>>
 \* ---- UTC date-times (C01, C02, C16) and comparison (C14) ----
 GmtimeCall == /\ Tick /\ \E uw \in Instants :
